@@ -312,6 +312,43 @@ theorem planLiteral_consistent : planLiteral_consistent_full := by
   intro file pat repl hpat h hh
   exact planLiteral_consistent_current file pat repl hpat h hh (Or.inl (by decide))
 
+/-- `planLiteral_consistent_bytes` — the shape of seeded/_fixes/c03_replace_skip_non_utf8.diff: a planner that adds the line
+    offset and leaves files that are not valid UTF-8 out of the plan is consistent with the BYTES ON DISK for EVERY file
+    (no valid-UTF-8 guard: such a file is provably absent from the plan). -/
+theorem planLiteral_consistent_bytes (file pat repl : Bytes) (hpat : pat ≠ []) :
+    ∀ h ∈ planLiteralS true true file pat repl, (file.take h.stop).drop h.start = h.content := by
+  intro h hh
+  unfold planLiteralS at hh
+  by_cases hv : Utf8.valid file = true
+  · simp only [hv, Bool.not_true, Bool.and_false, Bool.false_eq_true, if_false] at hh
+    have := planLiteral_consistent_fileRelative file pat repl hpat h hh
+    rwa [lossy_of_valid hv] at this
+  · have hv' : Utf8.valid file = false := by simpa using hv
+    simp [hv'] at hh
+
+theorem planLiteral_skips_invalid (fr : Bool) (file pat repl : Bytes) (hv : Utf8.valid file = false) :
+    planLiteralS fr true file pat repl = [] := by
+  simp [planLiteralS, hv]
+
+/-- The same for the planner AS IT IS, whatever the two generated flags say: consistent with the bytes on disk when it adds
+    line offsets and either skips non-UTF-8 files (`Gen.replaceSkipsInvalidUtf8`, false today: finding replace_lossy_offsets)
+    or the file is valid UTF-8.  Once the skip is in the tree the second hypothesis is discharged by `decide` for every file. -/
+theorem planLiteral_bytes_current (file pat repl : Bytes) (hpat : pat ≠ []) :
+    ∀ h ∈ planLiteralS Gen.replaceOffsetsFileRelative Gen.replaceSkipsInvalidUtf8 file pat repl,
+      Gen.replaceOffsetsFileRelative = true →
+      (Gen.replaceSkipsInvalidUtf8 = true ∨ Utf8.valid file = true) →
+      (file.take h.stop).drop h.start = h.content := by
+  intro h hh hfr hs
+  rw [hfr] at hh
+  rcases hs with hs | hv
+  · rw [hs] at hh
+    exact planLiteral_consistent_bytes file pat repl hpat h hh
+  · have hh' : h ∈ planLiteral true file pat repl := by
+      unfold planLiteralS at hh
+      simpa [hv] using hh
+    have := planLiteral_consistent_fileRelative file pat repl hpat h hh'
+    rwa [lossy_of_valid hv] at this
+
 /-- for a file that is valid UTF-8 the text searched IS the file -/
 theorem planLiteral_valid_file (file : Bytes) (hv : Utf8.valid file = true) : Utf8.lossy file = file :=
   lossy_of_valid hv
@@ -364,5 +401,18 @@ theorem C03_witness_invalid_utf8_line_context :
 theorem C03_beforefix_invalid_utf8_panics :
     let c : Bytes := b!"foo_bar " ++ [0xFF] ++ b!" foo_bar z\n"
     Hunks.hunkGeomAtOld c 10 17 b!"foo_bar" b!"baz" = .panic := by decide
+
+/-- the repaired shape leaves that file out of the plan -/
+theorem C03_fixed_replace_lossy_offsets :
+    planLiteralS true true [0xFF, 32, 102, 111, 111, 10] b!"foo" b!"bar" = [] ∧
+    (planLiteralS true false [0xFF, 32, 102, 111, 111, 10] b!"foo" b!"bar").map (fun h => (h.start, h.stop)) = [(4, 7)] := by decide
+
+/-- the repaired shape of `generate_hunks` (text before / after the match decoded separately) on the witness of
+    invalid_utf8_line_context: the SECOND occurrence is replaced and `char_offset` is 10 -/
+theorem C03_fixed_invalid_utf8_line_context :
+    let c : Bytes := b!"foo_bar " ++ [0xFF] ++ b!" foo_bar z\n"
+    Hunks.hunkGeomAtG true true c 10 17 b!"foo_bar" b!"baz" =
+      .ok { line := 1, byteOffset := 10, charOffset := 10, start := 10, stop := 17, content := b!"foo_bar", replace := b!"baz",
+            lineBefore := b!"foo_bar \ufffd foo_bar z\n", lineAfter := b!"foo_bar \ufffd baz z\n" } .splice := by decide
 
 end C03
